@@ -62,7 +62,7 @@ class CodeV:
                 names.append(a.kwarg.arg)
             # locals follow; callers only ever slice [:co_argcount]
             return tuple(names)
-        raise_('AttributeError', name)
+        raise Unsupported('CodeV.%s (no model)' % name)
 
 
 class OpaqueStr(Opaque):
@@ -244,6 +244,12 @@ def py_len(interp, x):
         f, _ = x.cls.lookup('__len__')
         if f is not None:
             return interp.call(BoundMethod(x, f), [], {})
+    if isinstance(x, (DataFrameV, RowV)):
+        return len(x.rows) if isinstance(x, DataFrameV) else len(x.cells)
+    if hasattr(x, 'sym_getattr') or hasattr(x, 'sym_iter'):
+        # an object of an external-library model: not a TypeError of the
+        # program under verification
+        raise Unsupported('len() of %s (no model)' % type(x).__name__)
     raise_('TypeError', "object of type '%s' has no len()"
            % type(x).__name__)
 
@@ -851,7 +857,7 @@ class OptResultV:
             return self.success
         if name in ('message', 'status', 'nit', 'fun'):
             return OpaqueStr('minimize.' + name)
-        raise_('AttributeError', name)
+        raise Unsupported('OptResultV.%s (no model)' % name)
 
 
 class NullCell:
@@ -886,7 +892,15 @@ class DataFrameV:
         if name == 'iterrows':
             return Builtin('iterrows', lambda: [
                 (i, RowV(self.headers, r)) for i, r in enumerate(self.rows)])
-        raise_('AttributeError', name)
+        # the rest of the pandas API is outside the modelled subset (not an
+        # AttributeError of the program under verification)
+        raise Unsupported('pandas DataFrame.%s (no model)' % name)
+
+    def sym_getitem(self, idx, interp):
+        raise Unsupported('pandas DataFrame[...] (no model)')
+
+    def sym_setitem(self, idx, v, interp):
+        raise Unsupported('pandas DataFrame[...] = ... (no model)')
 
 
 class RowV:
@@ -898,7 +912,7 @@ class RowV:
         if name == 'items' or name == 'iteritems':
             return Builtin('items', lambda: list(zip(self.headers,
                                                      self.cells)))
-        raise_('AttributeError', name)
+        raise Unsupported('pandas Series.%s (no model)' % name)
 
 
 class FileV:
@@ -939,7 +953,7 @@ class OpenFileV:
             return Builtin('read', lambda: self.f.text)
         if name == 'close':
             return Builtin('close', lambda: None)
-        raise_('AttributeError', name)
+        raise Unsupported('OpenFileV.%s (no model)' % name)
 
 
 class DictView:
@@ -2586,7 +2600,7 @@ class _Signature:
         if self.stub:
             if name == 'parameters':
                 return {'kw': ParamV('kw', 'VAR_KEYWORD')}
-            raise_('AttributeError', name)
+            raise Unsupported('_Signature.%s (no model)' % name)
         a = self.fv.node.args
         if name == 'parameters':
             out = {}
@@ -2604,7 +2618,7 @@ class _Signature:
             return [p.arg for p in a.posonlyargs + a.args]
         if name == 'varkw':
             return a.kwarg.arg if a.kwarg else None
-        raise_('AttributeError', name)
+        raise Unsupported('_Signature.%s (no model)' % name)
 
 
 class ParamV:
@@ -2622,7 +2636,7 @@ class ParamV:
             return self.name
         if name in self.KINDS:
             return name
-        raise_('AttributeError', name)
+        raise Unsupported('ParamV.%s (no model)' % name)
 
 
 def _namedtuple(interp, typename, fields, **kw):
@@ -2697,7 +2711,7 @@ class CounterV:
             return Builtin('values', lambda: list(self.d.values()))
         if name == 'copy':
             return Builtin('copy', lambda: CounterV(interp, self))
-        raise_('AttributeError', name)
+        raise Unsupported('CounterV.%s (no model)' % name)
 
     def sym_equals(self, other, ops):
         if isinstance(other, CounterV):
@@ -2782,7 +2796,7 @@ class MatchV:
         if name in ('group', 'groups', 'start', 'end', 'span', 'groupdict'):
             return Builtin('match.' + name,
                            lambda *a: getattr(self.m, name)(*a))
-        raise_('AttributeError', name)
+        raise Unsupported('MatchV.%s (no model)' % name)
 
 
 class GroupV:
@@ -2800,7 +2814,7 @@ class GroupV:
             return Builtin('end', lambda *a: py_len(interp, self.text))
         if name == 'span':
             return Builtin('span', lambda *a: (0, py_len(interp, self.text)))
-        raise_('AttributeError', name)
+        raise Unsupported('GroupV.%s (no model)' % name)
 
 
 def _re_table(interp):
